@@ -3,7 +3,7 @@
   Property theorems over M-Core, for every valid parameter set (the notice period is validated to be
   positive by `Params.ValidateBasic`) and every operation sequence.
 -/
-import DymVerif.Lemmas.CoreRolesClass
+import DymVerif.Lemmas.CoreRolesOut
 namespace DymVerif.C07
 open DymVerif DymVerif.Core
 
@@ -208,6 +208,41 @@ theorem never_proposer_twice (p : Params) (hp : 0 < p.noticePeriod) (ops : List 
     have h2 := runFrom_roles_mono (apply_roles hroles happ) ops2
     exact choose_ne_marked h2.1.core (h2.2.marked hm) ra
 
+/-- **... and never holds a role again.**  Under the same hypotheses, in every later state `a` is
+    neither proposer nor successor of any rollapp: a rotation only promotes the successor, and a
+    successor is always a bonded sequencer that has not started a notice, while `a` has a started
+    notice or is unbonded from the moment it lost the slot, for ever. -/
+theorem never_proposer_again (p : Params) (hp : 0 < p.noticePeriod) (ops : List Op) (o : Op) (ops2 : List Op)
+    (id : Nat) (r : Rollapp) (a : Addr)
+    (hr : getRa (run p ops) id = some r) (hpa : r.proposer = some a)
+    (hlost : ∀ r', getRa (run p (ops ++ [o])) id = some r' → r'.proposer ≠ some a) :
+    ∀ r' ∈ (run p (ops ++ o :: ops2)).ras, r'.proposer ≠ some a ∧ r'.successor ≠ some a := by
+  have hroles := run_roles p hp ops
+  have e1 : run p (ops ++ [o]) = (step (run p ops) o).1 := by
+    rw [run_append]; rfl
+  cases happ : apply (run p ops) o with
+  | error err =>
+    have : (step (run p ops) o).1 = run p ops := by unfold step; rw [happ]
+    rw [e1, this] at hlost
+    exact absurd hpa (hlost r hr)
+  | ok s' =>
+    have hs' : (step (run p ops) o).1 = s' := by unfold step; rw [happ]
+    rw [e1, hs'] at hlost
+    have hout := out_after_removal hroles happ hr hpa hlost
+    have e2 : run p (ops ++ o :: ops2) = runFrom s' ops2 := by
+      rw [show ops ++ o :: ops2 = (ops ++ [o]) ++ ops2 by simp, run_append, e1, hs']
+    rw [e2]
+    have h2 := runFrom_out (apply_roles hroles happ) hout ops2
+    intro r' hr'
+    exact ⟨h2.2.notProp r' hr', marked_not_successor h2.1.core h2.2.marked r' hr'⟩
+
+/-- a successor is always a sequencer that has not started a notice (it was opted in when chosen, and
+    only a proposer can start a notice) -/
+theorem successor_fresh (p : Params) (hp : 0 < p.noticePeriod) (ops : List Op) (r : Rollapp)
+    (hr : r ∈ (run p ops).ras) (a : Addr) (hs : r.successor = some a) (q : Seq)
+    (hq : getSeq (run p ops) a = some q) : q.notice = none :=
+  (run_roles p hp ops).core.succFresh r hr a hs q hq
+
 -- ---------------------------------------------------------------- non-vacuity and the role of the parameter validation
 
 def exParams : Params where
@@ -238,6 +273,21 @@ example : ((run exParams (exRotation ++
     [.update { ra := 0, sender := 1, start := 4, num := 2, rev := 0, last := true, bds := exBds 4 2 }])).seqs.map
       fun q => (q.addr, q.bonded, q.optedIn, q.notice)) =
     [(1, true, false, some 10), (2, true, true, none), (3, true, true, none), (4, true, true, none)] := by decide
+
+-- ... and it cannot come back: opting in again is refused
+example : (step (run exParams (exRotation ++
+    [.update { ra := 0, sender := 1, start := 4, num := 2, rev := 0, last := true, bds := exBds 4 2 }])) (.optIn 1 true)).2
+      = some Err.noticeStarted := by decide
+
+/-- kick (threshold 0 for brevity): sequencer 2 kicks proposer 1; the rollapp is forked, 1 is unbonded, all
+    sequencers are opted out, the kicker is opted back in and is the choice (although 3 has the larger bond) -/
+def exKick : List Op := [.createRollapp 0 9 10, .fund 1 100, .fund 2 100, .fund 3 100,
+  .createSeq 1 0 10 true, .createSeq 2 0 10 true, .createSeq 3 0 30 true,
+  .update { ra := 0, sender := 1, start := 1, num := 3, rev := 0, last := false, bds := exBds 1 3 },
+  .bridge 0 1, .kick 2]
+example : (let s := run { exParams with kickThr := 0 } exKick
+    (s.ras.map fun r => (r.proposer, r.successor), s.seqs.map fun q => (q.addr, q.bonded, q.optedIn))) =
+    ([(some 2, none)], [(1, false, false), (2, true, true), (3, true, false)]) := by decide
 
 /-- The hypothesis `0 < noticePeriod` (enforced by the parameter validation of the real module) is
     needed: with a zero notice period the proposer's notice is elapsed the moment it is served, its
